@@ -8,4 +8,4 @@ for p in "$@"; do
     [ -d /verif/twins/$p-$k ] && continue
     echo "$p $k $d"
   done
-done | xargs -P 3 -L 1 bash -c '/venv/bin/python /verif/tools/confirm_twin.py $0 $1 $2 2>&1 | tail -1'
+done | xargs -P 4 -L 1 bash -c '/venv/bin/python /verif/tools/confirm_twin.py $0 $1 $2 2>&1 | tail -1'
